@@ -117,7 +117,7 @@ func newConcWorld(g *gate, decoded bool) *concWorld {
 	w.envelope, err = cose.SignHashEnvelope(nil, plain, cose.Headers{Protected: cose.ProtectedHeader{int(4): []byte("k")}},
 		cose.HashEnvelopePayload{HashAlgorithm: cose.AlgorithmSHA256, HashValue: make([]byte, 32), Location: "loc"})
 	must(err)
-	w.key, err = cose.NewKeyFromPrivate(keyFor("p256-a"))
+	w.key, err = cose.NewKeyFromPrivate(keyFor("p256-zx1")) // x has a leading zero byte: MarshalCBOR must pad it without touching the key
 	must(err)
 	w.bsigner, err = cose.NewSigner(cose.AlgorithmES256, keyFor("p256-a"))
 	must(err)
@@ -126,6 +126,9 @@ func newConcWorld(g *gate, decoded bool) *concWorld {
 	if decoded {
 		b, err := w.msg.MarshalCBOR()
 		must(err)
+		if wide, ok := rewire(b, 0, J{"width": float64(2)}); ok {
+			b = wide // a peer may spell the protected bstr length prefix non-minimally
+		}
 		var m2 cose.Sign1Message
 		must(m2.UnmarshalCBOR(b))
 		w.msg = &m2
